@@ -33,7 +33,7 @@ func readTree(root string) map[string]string {
 		return nil
 	})
 	if len(files) == 0 {
-		common.Broken("project tree %s is empty", root)
+		broken("project tree %s is empty", root)
 	}
 	return files
 }
